@@ -493,6 +493,7 @@ func (t *Collection) VisitItemsRandom(
 		}
 		return true
 	}
+	verifYield(1)
 	si, err := t.MinItem(false)
 	if err != nil {
 		return err
@@ -570,6 +571,7 @@ func (t *Collection) VisitItemsAscendBlockEx(
 		}
 		return true
 	}
+	verifYield(1)
 	si, err := t.MinItem(false)
 	if err != nil {
 		return err
